@@ -577,7 +577,7 @@ const N_CONFIGS: usize = 8;
 
 pub fn run(ctx: &Ctx) -> i32 {
     let n = N_CONFIGS * question_names().len();
-    let (acc, crashes) = procpar::parent(ctx, n, ctx.tier.pick(40.0, 570.0), &[SLUG_NS_OWNER]);
+    let (acc, crashes) = procpar::parent(ctx, n, ctx.tier.pick(90.0, 1800.0), &[SLUG_NS_OWNER]);
     let mut report = Report::new();
     let c = |k: &str| acc.counters.get(k).copied().unwrap_or(0);
     report.evaluations = c("executions");
